@@ -26,7 +26,7 @@ var verifDir = "/verif"
 var repoDir = "/repo"
 
 // delay bound of the thorough tier per property (default 1)
-var thoroughDelay = map[string]int{"C10": 2, "C11": 2, "C12": 2, "C13": 2, "C14": 2, "C15": 2, "C16": 2, "C20": 2}
+var thoroughDelay = map[string]int{"C10": 4, "C11": 5, "C12": 3, "C13": 2, "C14": 2, "C15": 3, "C16": 2, "C20": 6}
 
 func main() {
 	if d := os.Getenv("VERIF_DIR"); d != "" {
@@ -189,19 +189,20 @@ func cmdRun(args []string) int {
 			ec.Opt.DelayBound = d // development override
 		}
 		ev.Bounds = map[string]interface{}{
-			"delay_bound_default":          ec.Opt.DelayBound,
-			"delay_bound_note":             "deviations from the round-robin base schedule per run; harnesses named *Deep / *Lemma* / PMapSizes set their own (3, 2 or 0) with vfSetDelayBound",
-			"scheduling_granularity":       "one source statement (points inserted by the overlay instrumenter); partial-order reduction of invisible segments: " + map[bool]string{true: "off", false: "on"}[ec.Opt.NoPOR],
-			"loop_unwinding_per_block":     ec.Opt.LoopBound,
-			"path_bound_per_harness":       ec.MaxPaths,
-			"ssa_step_bound_per_path":      ec.Opt.MaxSteps,
-			"solver_timeout_ms":            ec.TimeoutMs,
-			"sizes":                        "stated in each harness header comment and DESIGN.md §3/§4 (vfRange / vfChoose bounds, scaled by the tier)",
+			"delay_bound_default":           ec.Opt.DelayBound,
+			"delay_bound_note":              "deviations from the round-robin base schedule per run; harnesses named *Deep / *Lemma* / PMapSizes set their own (3, 2 or 0) with vfSetDelayBound",
+			"scheduling_granularity":        "one source statement (points inserted by the overlay instrumenter); partial-order reduction of invisible segments: " + map[bool]string{true: "off", false: "on"}[ec.Opt.NoPOR],
+			"loop_unwinding_per_block":      ec.Opt.LoopBound,
+			"path_bound_per_harness":        ec.MaxPaths,
+			"ssa_step_bound_per_path":       ec.Opt.MaxSteps,
+			"solver_timeout_ms":             ec.TimeoutMs,
+			"sizes":                         "stated in each harness header comment and DESIGN.md §3/§4 (vfRange / vfChoose bounds, scaled by the tier)",
 			"cvc5_cross_check_pct_of_unsat": ec.Opt.CrossPct,
 		}
 		sums, st := gosym.Explore(p, entries, ec)
 		ev.addSolver(st)
 		for _, s := range sums {
+			ev.addBlocks(p, s)
 			ev.addHarness(s)
 			if *verbose {
 				printSummary(s)
@@ -338,6 +339,7 @@ type evidence struct {
 	Cross       map[string]int
 	BySolver    int
 	Bounds      map[string]interface{}
+	BlockCov    map[string]*blockCov
 	PerHarness  []map[string]interface{}
 	Samples     []interface{}
 	Problems    []string
@@ -350,6 +352,71 @@ type evidence struct {
 
 func newEvidence(prop, tier string, seed int64) *evidence {
 	return &evidence{Prop: prop, Tier: tier, Seed: seed, Funcs: map[string]bool{}, ForkKinds: map[string]int{}, StatusCount: map[string]int{}, Reached: map[string]int{}}
+}
+
+// blockCov: which basic blocks (go/ssa) of one function of the code under test were entered by some path of this run.
+type blockCov struct {
+	File    string `json:"file"`
+	Covered string `json:"covered"` // one character per basic block: 1 entered, 0 never entered
+	Lines   []int  `json:"first_line_of_block"`
+}
+
+func (e *evidence) addBlocks(p *gosym.Program, s *gosym.HarnessSummary) {
+	if e.BlockCov == nil {
+		e.BlockCov = map[string]*blockCov{}
+	}
+	for fn, cov := range s.Blocks {
+		key := fn
+		if o := fn.Origin(); o != nil {
+			key = o // instantiations of a generic function share its source
+		}
+		pos := p.Fset.Position(key.Pos())
+		if !pos.IsValid() || !strings.HasPrefix(pos.Filename, repoDir+"/") || strings.HasPrefix(filepath.Base(pos.Filename), "zz_") {
+			continue
+		}
+		name := key.String()
+		bc := e.BlockCov[name]
+		if bc == nil || len(bc.Covered) != len(cov) {
+			bc = &blockCov{File: strings.TrimPrefix(pos.Filename, repoDir+"/"), Covered: strings.Repeat("0", len(cov)), Lines: make([]int, len(cov))}
+			for i, b := range fn.Blocks {
+				bc.Lines[i] = blockLine(p, b)
+			}
+			e.BlockCov[name] = bc
+		}
+		cb := []byte(bc.Covered)
+		for i, c := range cov {
+			if c {
+				cb[i] = '1'
+			}
+		}
+		bc.Covered = string(cb)
+	}
+}
+
+// blockLine: source line (in /repo's file, not in the instrumented overlay) of the first statement of a basic block.
+func blockLine(p *gosym.Program, b *ssa.BasicBlock) int {
+	for _, in := range b.Instrs {
+		if p.Instrumented {
+			// the overlay shifts lines; every statement is preceded by vfPoint(id), whose id maps back to file:line
+			if c, ok := in.(*ssa.Call); ok {
+				if f := c.Call.StaticCallee(); f != nil && f.Name() == "vfPoint" && len(c.Call.Args) == 1 {
+					if k, ok := c.Call.Args[0].(*ssa.Const); ok {
+						if at, ok := p.Points[int(k.Int64())]; ok {
+							if i := strings.LastIndexByte(at, ':'); i >= 0 {
+								n, _ := strconv.Atoi(at[i+1:])
+								return n
+							}
+						}
+					}
+				}
+			}
+			continue
+		}
+		if ip := in.Pos(); ip.IsValid() {
+			return p.Fset.Position(ip).Line
+		}
+	}
+	return 0
 }
 
 func (e *evidence) addSolver(st interface{}) {
@@ -458,6 +525,7 @@ func (e *evidence) write(path string) error {
 		"fork_decisions_by_kind":        e.ForkKinds,
 		"solver":                        map[string]interface{}{"name": "z3 4.8.12 (incremental, -in)", "queries": e.Queries, "sat": e.QSat, "unsat": e.QUnsat, "unknown": e.QUnknown, "errors": e.QErrors, "solver_time_s": round3(e.SolverS)},
 		"bounds":                        e.Bounds,
+		"basic_blocks_entered":          e.BlockCov,
 		"obligations_discharged":        e.Discharged,
 		"obligations_discharged_how":    map[string]interface{}{"by_solver_unsat_verdict": e.BySolver, "reduced_to_true_by_term_rewriting_during_symbolic_execution": e.Discharged - e.BySolver, "note": "an obligation over symbolic values that the hash-consing simplifier reduces to true (e.g. the returned term IS the input term) holds for all values without a query; feasibility queries for assumptions and branches are counted under solver.sat"},
 		"cross_checked_with_cvc5":       e.Cross,
@@ -569,4 +637,3 @@ func cmdSelftest(args []string) int {
 
 // tests the baseline itself lists as flaky / always failing
 var flaky = map[string]bool{"TestNewBufferedChannelQueue": true, "TestLinkedListQueue": true, "TestWorkerJamDuration": true}
-
